@@ -25,6 +25,7 @@ func c13(p Params) func() {
 	fault := p.Get("fault", "idle")
 	down := p.Int("down", 0)
 	setid := p.Get("setid", "1") == "1"
+	losses := p.Int("losses", 1)            // further losses (while idle) after the session survived the first one
 	hookReject := p.Get("hook", "0") == "1" // the unavailable attempts fail in the client's PostDial hook instead of at the network
 	return func() {
 		begin()
@@ -219,6 +220,43 @@ func c13(p Params) func() {
 		}
 		if budget >= 0 && attempts > 3*round {
 			vsched.Failf("%d dial attempts after one loss with a budget of %d | %s", attempts, budget, ctxt)
+		}
+		// repeated losses: the session that survived the first loss loses its new connection too
+		for l := 2; l <= losses && reconnects; l++ {
+			vnet.DialHook = nil
+			rec.OnStage = nil
+			delete(rec.Veto, "postdial_redial")
+			redialsBefore := rec.Count["postdial_redial"]
+			sc := serverConn()
+			if sc == nil {
+				vsched.Failf("harness: no live server-side connection before loss %d | %s", l, ctxt)
+			}
+			if l%2 == 0 {
+				sc.Break()
+			} else {
+				sc.Close()
+			}
+			vsched.Quiesce()
+			if !sess.Health() {
+				vsched.Failf("session is not healthy after loss %d although the server is reachable | %s", l, ctxt)
+			}
+			if setid && sess.ID() != wantID {
+				vsched.Failf("user-assigned session id changed from %q to %q across redial %d | %s", wantID, sess.ID(), l, ctxt)
+			}
+			if got, ok := cli.GetSession(sess.ID()); !ok || got != sess || cli.CountSession() != 1 {
+				vsched.Failf("after loss %d the client's index does not list exactly the reconnected session (%v) | %s", l, sessionsOf(cli), ctxt)
+			}
+			if rec.Count["postdial_redial"] != redialsBefore+1 {
+				vsched.Failf("loss %d: PostDial with isRedial=true ran %d times, want once | %s", l, rec.Count["postdial_redial"]-redialsBefore, ctxt)
+			}
+			var r string
+			if st := sess.Call(h, "d", &r).Status(); !st.OK() || r != "r:d" {
+				vsched.Failf("call after loss %d failed: %s | %s", l, world.StatStr(st), ctxt)
+			}
+			if closedNotify(sess) {
+				vsched.Failf("close notification fired although the session reconnected after loss %d | %s", l, ctxt)
+			}
+			world.Counter("reconnected_again")
 		}
 		vsched.Logf("%s attempts=%d", ctxt, attempts)
 	}
